@@ -35,6 +35,10 @@ Fixpoint iota_from (s : N) (n : nat) : list N :=
 Definition embedded_assign (split_count runners : nat) : list (list N) :=
   partition (iota_from 0 split_count) runners.
 
+(* embedded, restored: the cursor handed out for a split is the one of its last checkpointed reader state *)
+Definition embedded_cursor (states : list (N * N)) (split : N) : option N :=
+  match find (fun c => fst c =? split) (rev states) with Some c => Some (snd c) | None => None end.
+
 (* httpapi: (runner index, cursor) of the single split; cursor = last non-empty split state, [] if none *)
 Definition httpapi_cursor (split_states : list (list N)) : list N :=
   fold_left (fun c d => match d with [] => c | _ => d end) split_states [].
